@@ -18,7 +18,7 @@ import os, sys, time, json, shutil, subprocess
 import build, checklib as cl, run, gen, l3, l3batch
 from check_c12 import cl_open
 
-FAULTS = ["refuse", "drop", "truncate", "status500", "empty", "nonjson", "nodurations", "nodistances", "nulls", "fewer", "fewer_dist", "fewer_dur"]
+FAULTS = ["refuse", "drop", "truncate", "status500", "empty", "nonjson", "nodurations", "nodistances", "nulls", "fewer", "fewer_dist", "fewer_dur", "emptyrows", "emptydist"]
 RETRIED = ("refuse", "drop")      # SimpleWeb's client silently retries once when no response header arrived
 
 
